@@ -18,4 +18,13 @@ PROPS = {
         assumptions=["decryptor inputs are arbitrary blocks (not produced by an encryptor)"],
     ),
 }
+PROPS["C03"] = dict(modules=["c03"])
+PROPS["C04"] = dict(modules=["c04"])
+PROPS["C05"] = dict(modules=["c05"])
+PROPS["C07"] = dict(modules=["c07"])
+PROPS["C06"] = dict(modules=["c06"])
+for _p in ("C08","C09","C10","C11","C12","C13","C14","C15","C16"):
+    PROPS[_p] = dict(modules=[_p.lower()])
+PROPS["C10"]["also"] = ["c04::ctr32be_b8_w2_n3", "c04::ctr64le_b16_w2_n3", "c04::ctr128be_b16_w2_n3", "c06::belt_core_w2_n3"]
+PROPS["C11"]["also"] = ["c04::ctr32le_b8_w2_n3", "c04::ctr64be_b16_w2_n3", "c04::ctr128le_b16_w2_n3", "c06::belt_core_w1_n2"]
 NOT_APPLICABLE = {}
